@@ -252,6 +252,17 @@ func cmdCheck(repo, verifDir, id, tier string) int {
 			}
 		}
 	}
+	// an exit is reachable when at least ONE path to it is not contradictory (single paths may well be infeasible)
+	for _, k := range order {
+		g := groups[k]
+		if g.Insts[0].Kind == "cover" && strings.HasPrefix(g.Name, "cover:exit") && !g.Passed {
+			for _, o := range g.Insts {
+				if o.passed() {
+					g.Passed = true
+				}
+			}
+		}
+	}
 	// 4. classify failures
 	baseSet := map[string]bool{}
 	if haveBase {
@@ -269,14 +280,26 @@ func cmdCheck(repo, verifDir, id, tier string) int {
 	var covers, coverOK int
 	var samples []map[string]interface{}
 	var knownObls []string
+	var deadExits []string // exits no path reaches under the contracts alone (no lemma axiom involved): reported, not counted as proof of anything
 	for _, k := range order {
 		g := groups[k]
 		if g.Insts[0].Kind == "cover" {
 			covers++
 			if g.Passed {
 				coverOK++
+				if strings.HasPrefix(g.Name, "cover:exit") {
+					live := false
+					for _, o := range g.Insts {
+						if o.passed() && o.Status != "dead" {
+							live = true
+						}
+					}
+					if !live {
+						deadExits = append(deadExits, k)
+					}
+				}
 			} else {
-				fmt.Printf("VACUOUS property=%s %s: the preconditions are contradictory\n", id, k)
+				fmt.Printf("VACUOUS property=%s %s: the assumptions are contradictory (preconditions, or everything assumed along the path to an exit)\n", id, k)
 				toolErrs++
 			}
 			continue
@@ -400,6 +423,7 @@ func cmdCheck(repo, verifDir, id, tier string) int {
 		"functions_under_contract": fnsUnder,
 		"by_backend":               byBackend,
 		"vacuity_guards":           map[string]int{"cover_queries": covers, "passed": coverOK},
+		"dead_exits":               deadExits,
 		"samples":                  samples,
 		"not_decided":              pack.NotDecided,
 		"bounded_standins":         pack.Bounded,
